@@ -379,6 +379,11 @@ func body(r *eng.Run) {
 	var expired sync.Once
 	var mu sync.Mutex
 	depthHist := map[string]int{}
+	var dumpF *os.File
+	if f := os.Getenv("VERIF_C07_DUMP"); f != "" {
+		dumpF, _ = os.Create(f)
+		defer dumpF.Close()
+	}
 	eng.ParFor(len(order), func(k int) {
 		if r.Expired() {
 			expired.Do(func() { r.Incomplete("budget expired before all cases ran") })
@@ -386,6 +391,11 @@ func body(r *eng.Run) {
 		}
 		c := cases[order[k]]
 		res := checkCase(r, c)
+		if dumpF != nil { // development aid: root CID of every case
+			mu.Lock()
+			fmt.Fprintf(dumpF, "%+v %s\n", c, res.root)
+			mu.Unlock()
+		}
 		r.Outcome(fmt.Sprintf("%s depth=%d rootraw=%v leaves>=2:%v", c.Layout, res.depth, res.rootRawLeaf, res.leaves >= 2))
 		if res.leaves >= 2 {
 			r.Distinct(fmt.Sprintf("%s w=%d leaves=%d depth=%d raw=%v b=%s m=%o t=%s", c.Layout, c.W, res.leaves, res.depth, c.Raw, c.Builder, c.Mode, c.Mtime))
